@@ -560,49 +560,40 @@ func checkC17(c *Ctx) {
 	// R2
 	ru2 := c.R.Rule("C17-R2", "delivery strips the prefix with the recipient's own mount point: the outgoing Topic is recipient.TrimMountPoint(source.Topic), and the packet is written to that same recipient", "E3 provenance", 1)
 	trim := c.cm(ru2, "wasp/sessions", "Session", "TrimMountPoint")
-	localGet := c.im(ru2, "wasp", "LocalState", "Get")
-	sessWriter := c.cm(ru2, "wasp/sessions", "Session", "Writer")
-	if trim != nil && localGet != nil && sessWriter != nil {
-		n := 0
-		for _, f := range c.P.ModFuncs() {
-			if f.Package() == nil || f.Package().Pkg.Path() != c.P.Rel("wasp") {
-				continue
+	if o := c.outbound(ru2); o != nil && trim != nil {
+		if fan := c.fanOut(o); ru2.Anchor(fan != nil, "the fan-out function") {
+			var lookup *core.Call
+			for _, g := range core.CallsTo(fan, o.localGet) {
+				lookup = g
 			}
-			for _, b := range f.Blocks {
-				for _, in := range b.Instrs {
-					st, ok := in.(*ssa.Store)
-					if !ok {
-						continue
-					}
-					fa, ok := st.Addr.(*ssa.FieldAddr)
-					if !ok || fieldNameOf(fa.X.Type(), fa.Field) != "Topic" || !isNamed(fa.X.Type(), pkgPacket, "Publish") {
-						continue
-					}
-					if _, isLit := fa.X.(*ssa.Alloc); !isLit {
-						continue
-					}
-					// only outgoing copies: literals built from another publish's fields
-					cv, isCall := core.Strip(st.Val).(*ssa.Call)
-					if !isCall || !core.CallOf(cv).Is(trim) {
-						if stringsContains(core.Term(st.Val), ".Topic") && len(core.CallsTo(f, sessWriter)) > 0 {
-							n++
-							ru2.Fail(fmt.Sprintf("outgoing topic #%d in %s", n, c.fname(f)), c.whereI(st), "the outgoing packet copies the stored topic without trimming the mount point: the client sees the internal prefix")
-						}
-						continue
-					}
-					n++
-					key := fmt.Sprintf("outgoing topic #%d in %s", n, c.fname(f))
-					recv := core.Strip(cv.Call.Args[0])
-					gc, ok := recv.(*ssa.Call)
-					okRecv := ok && core.CallOf(gc).Is(localGet)
-					okWriter := false
-					for _, w := range core.CallsTo(f, sessWriter) {
-						if core.Strip(w.Common.Args[0]) == recv {
+			for i, pk := range c.deliveryPackets(o, fan) {
+				c.R.Fn(c.fname(pk.alloc.Parent()))
+				key := fmt.Sprintf("outgoing topic #%d (packet built in %s)", i+1, c.fname(pk.alloc.Parent()))
+				tv := pk.field("Topic")
+				cv, isCall := core.Strip(tv).(*ssa.Call)
+				if tv == nil || !isCall || !core.CallOf(cv).Is(trim) {
+					ru2.Fail(key, c.whereI(pk.site), "the outgoing packet's topic is not TrimMountPoint(…) of the stored topic: the client sees the internal prefix")
+					continue
+				}
+				recv := deepStrip(cv.Call.Args[0])
+				okRecv := lookup != nil && recv == lookup.Value()
+				// the packet goes to that same recipient: the arming call's session argument, or the Writer() the direct write uses
+				okWriter := false
+				for _, cl := range c.callsDeep(fan, 2) {
+					switch {
+					case cl.Is(o.sessWr):
+						if deepStrip(cl.Common.Args[0]) == recv {
 							okWriter = true
 						}
+					default:
+						if tgt, off := c.armTarget(o, nil, cl); tgt != nil && tgt.sessIdx-off >= 0 && tgt.sessIdx-off < len(cl.Common.Args) {
+							if deepStrip(cl.Common.Args[tgt.sessIdx-off]) == recv {
+								okWriter = true
+							}
+						}
 					}
-					ru2.Check(okRecv && okWriter, key, c.whereI(st), "TrimMountPoint of the recipient looked up in the registry, written to that recipient", "the prefix is stripped with a session other than the one the packet is written to")
 				}
+				ru2.Check(okRecv && okWriter, key, c.whereI(pk.site), "TrimMountPoint of the recipient looked up in the registry, written to that recipient", "the prefix is stripped with a session other than the one the packet is written to")
 			}
 		}
 	}
